@@ -10,7 +10,7 @@ from ..core import Fail, Result
 
 ID = "C19"
 RULE = ("exhaustive enumeration (every run, both tiers) of the finite product sde_type x noise_type x method (9 known + "
-        "unknown + omitted) x grad_free x Levy mode x {bm given, bm None} x adaptive x logqp for sdeint (5632 cells), of "
+        "unknown + omitted) x grad_free x Levy mode x {bm given, bm None} x adaptive x logqp for sdeint (5632 cells, plus the 1408 general/additive cells again with a single Brownian channel), of "
         "accepted forward combination x adjoint_method (9 + unknown + omitted) x adjoint grad_free for sdeint_adjoint, "
         "and of a list of malformed-argument classes; thorough adds Hypothesis-generated malformed arguments. Oracle = "
         "a table written from DOCUMENTATION.md and the solver docstrings (vp/sdes.py), not from the dispatch code: "
@@ -115,6 +115,11 @@ def _forward_cells():
                     (False, True), LEVIES, (True, False), (False, True), (False, True)):
                 yield {"kind": "forward", "sde_type": sde_type, "noise_type": noise_type, "method": method,
                        "grad_free": grad_free, "levy": levy, "bm_given": bm_given, "adaptive": adaptive, "logqp": logqp}
+                if noise_type in ("general", "additive") and not logqp:
+                    # the same cell with a single Brownian channel: "general" stays general when m == 1
+                    yield {"kind": "forward", "sde_type": sde_type, "noise_type": noise_type, "method": method,
+                           "grad_free": grad_free, "levy": levy, "bm_given": bm_given, "adaptive": adaptive,
+                           "logqp": logqp, "m": 1}
 
 
 def _adjoint_cells():
@@ -142,15 +147,16 @@ MALFORMED = ["ts_equal", "ts_decreasing", "ts_strings", "ts_single_repeat", "y0_
              "g_state_mismatch", "g_batch_mismatch", "g_wrong_rank", "scalar_many_channels", "missing_f", "missing_g",
              "missing_both", "ts_requires_grad", "dt_requires_grad", "rtol_requires_grad", "atol_requires_grad",
              "dt_min_requires_grad", "no_noise_type", "no_sde_type", "bad_noise_type", "bad_sde_type", "unknown_method",
-             "g_prod_without_bm", "ts_collapse_in_dtype"]
+             "g_prod_without_bm", "ts_collapse_in_dtype", "scalar_many_channels_bm"]
 
 
 def _malformed_cells():
     for cls in MALFORMED:
         for sde_type, noise_type in itertools.product(sdes.SDE_TYPES, sdes.NOISE_TYPES):
             for api in ("sdeint", "sdeint_adjoint"):
-                yield {"kind": "malformed", "cls": cls, "sde_type": sde_type, "noise_type": noise_type, "api": api,
-                       "variant": 0}
+                for variant in ((0, 1, 2, 3, 4, 5) if cls == "scalar_many_channels_bm" else (0,)):
+                    yield {"kind": "malformed", "cls": cls, "sde_type": sde_type, "noise_type": noise_type, "api": api,
+                           "variant": variant}
 
 
 def enumerate_cases(tier):
@@ -186,7 +192,7 @@ def _setup(case, d=2, m=2, batch=2, with_h=True):
 
 def _run_forward(case):
     import torchsde
-    sde, y0, ts = _setup(case)
+    sde, y0, ts = _setup(case, m=case.get("m", 2))
     want = forward_expected(case["sde_type"], case["noise_type"], case["method"],
                             case["levy"] if case["bm_given"] else None)
     kw = dict(method=case["method"], dt=0.1, adaptive=case["adaptive"], logqp=case["logqp"], dt_min=0.02)
@@ -194,6 +200,7 @@ def _run_forward(case):
         kw["options"] = {"grad_free": True}
     sig = {k: case[k] for k in ("sde_type", "noise_type", "method", "levy", "bm_given", "adaptive", "logqp",
                                 "grad_free")}
+    sig["m"] = sde.m
     with brownian_tools.node_budget(10 ** 7) as counter:
         if case["bm_given"]:
             # with logqp the state gains one channel; for diagonal noise the Brownian motion must match it
@@ -378,6 +385,26 @@ def _run_malformed(case):
         if case["noise_type"] != "scalar":
             return Result(labels=["malformed:not_applicable"])
         sde = Wrap(base, g=lambda t, y: base.g(t, y).expand(-1, -1, 2 + v % 3))
+    elif cls == "scalar_many_channels_bm":
+        # a scalar-noise SDE driven by a user-supplied Brownian motion with several channels, the SDE being given through
+        # each documented interface (f,g / f,g_prod / f_and_g_prod): the channel count is then only visible on the bm
+        if case["noise_type"] != "scalar":
+            return Result(labels=["malformed:not_applicable"])
+
+        class Iface(nn.Module):
+            noise_type, sde_type = sde.noise_type, sde.sde_type
+        p = Iface()
+        gp = lambda t, y, w: (base.g(t, y)[..., 0] * w.sum(-1, keepdim=True))      # noqa: E731
+        if v % 3 == 0:
+            p.f, p.g = base.f, base.g
+        elif v % 3 == 1:
+            p.f, p.g_prod = base.f, gp
+        else:
+            p.f_and_g_prod = lambda t, y, w: (base.f(t, y), gp(t, y, w))          # noqa: E731
+        sde = p
+        kw["bm"] = torchsde.BrownianInterval(t0=0.0, t1=0.2, size=(batch, 2 + (v // 3) % 2), dtype=torch.float64,
+                                             entropy=5)
+        kw.setdefault("method", "euler" if case["sde_type"] == "ito" else ["midpoint", "heun", "euler_heun"][v % 3])
     elif cls in ("missing_f", "missing_g", "missing_both"):
         class Partial(nn.Module):
             noise_type, sde_type = sde.noise_type, sde.sde_type
